@@ -15,7 +15,7 @@ Print Assumptions C06_quiet_partial.
 Theorem C06_converge_partial : forall g A B, wf_schemab A = true -> wf_schemab B = true -> defaults_ok B = true -> fk_names_ok A B = true ->
   no_unnamed_uq B = true ->     (* "all constraints named": see C06_unnamed_uq_outside below for what happens otherwise *)
   diff g (reflect_sqlite (apply_ops (diff g (reflect_sqlite A) B) A)) B = [].
-Proof. exact diff_converge. Qed.
+Proof. exact diff_converge_rendered. Qed.
 Print Assumptions C06_converge_partial.
 
 Open Scope N_scope.
